@@ -60,22 +60,25 @@ type Verdict struct {
 }
 
 type Spec struct {
-	Property    string
-	Tier        string
-	Seed        int64
-	Workers     int
-	Cases       int
-	Budget      time.Duration
-	Variants    []Variant
-	Native      bool
-	SimCfg      map[string]any
-	Generate    func(seed int64, i int) *Prog
-	Judge       func(p *Prog, o *Obs) *Verdict
-	KnownMatch  func(kf *known.File, p *Prog, v *Verdict) string
-	Rule        string
-	Assumptions []string
-	Real, Stub  []string
-	MaxShrink   int
+	Property string
+	Tier     string
+	Seed     int64
+	Workers  int
+	Cases    int
+	Budget   time.Duration
+	Variants []Variant
+	Native   bool
+	// NativePrepare, if set, returns the files of the native reference build given what the GopherJS runs
+	// showed (C10 aligns the order in which files are presented); default: the program as is.
+	NativePrepare func(p *Prog, o *Obs) (*Prog, error)
+	SimCfg        map[string]any
+	Generate      func(seed int64, i int) *Prog
+	Judge         func(p *Prog, o *Obs) *Verdict
+	KnownMatch    func(kf *known.File, p *Prog, v *Verdict) string
+	Rule          string
+	Assumptions   []string
+	Real, Stub    []string
+	MaxShrink     int
 }
 
 type Engine struct {
@@ -107,6 +110,7 @@ func (e *Engine) Close() {
 type built struct {
 	dir     string
 	scripts map[string]string
+	prog    *Prog
 }
 
 // InfraError marks trouble that is not a property violation (exit 2).
@@ -163,7 +167,7 @@ func (e *Engine) build(p *Prog) (*built, error) {
 	if err != nil {
 		return nil, &InfraError{err.Error()}
 	}
-	b := &built{dir: dir, scripts: map[string]string{}}
+	b := &built{dir: dir, scripts: map[string]string{}, prog: p}
 	for _, v := range e.spec.Variants {
 		out := filepath.Join(dir, "out_"+v.Name+".js")
 		if err := e.Env.Compile(dir, out, v.Minify, v.Tags); err != nil {
@@ -187,13 +191,6 @@ func (e *Engine) native(b *built) ([]string, int, error) {
 // observe runs every variant: the all-default tape, the variant's seeded tapes, and any extra explicit tapes.
 func (e *Engine) observe(b *built, seedKey string, extra map[string][][]int, seeded bool) (*Obs, error) {
 	o := &Obs{Runs: map[string][]simpool.Result{}}
-	if e.spec.Native {
-		lines, code, err := e.native(b)
-		if err != nil {
-			return nil, err
-		}
-		o.Native, o.NativeCode = lines, code
-	}
 	f := false
 	for _, v := range e.spec.Variants {
 		runs := []simpool.Run{{Tape: []int{}}}
@@ -219,6 +216,29 @@ func (e *Engine) observe(b *built, seedKey string, extra map[string][][]int, see
 			}
 		}
 		o.Runs[v.Name] = jr.Results
+	}
+	if e.spec.Native {
+		nb := b
+		if e.spec.NativePrepare != nil {
+			np, err := e.spec.NativePrepare(b.prog, o)
+			if err != nil {
+				// the runs do not even allow a reference to be built: the judge reports why
+				o.NativeCode = -1
+				o.Native = []string{"NATIVE-PREPARE: " + err.Error()}
+				return o, nil
+			}
+			dir, err := e.materialise(np)
+			if err != nil {
+				return nil, &InfraError{err.Error()}
+			}
+			defer os.RemoveAll(dir)
+			nb = &built{dir: dir}
+		}
+		lines, code, err := e.native(nb)
+		if err != nil {
+			return nil, err
+		}
+		o.Native, o.NativeCode = lines, code
 	}
 	return o, nil
 }
